@@ -4,7 +4,7 @@
 // coq/Delta.v is the model that must print the same lines.
 //
 // Case lines:
-//   1 mode start end             mode 0: capture/apply probe; mode 1: record run then replay run
+//   1 mode start end [rs re]     mode 0: capture/apply probe; mode 1: record run [start,end) then replay run [rs,re)
 //   2 <schema tokens>            1=TS<int> 2=SIGNAL 3=TSS<int> 4 <e>=TSD<int,e> 5 n <e>=TSL<e,n>
 //                                6 k <f1..fk>=TSB 7 period min=TSW<int,period,min>
 //   3 t np p1..pn op arg         one mutation at time t through the path (TSD: key, TSL/TSB: index)
@@ -25,6 +25,9 @@
 #include <hgraph/types/value/value.h>
 
 #include <algorithm>
+#include <array>
+#include <span>
+#include <typeindex>
 #include <map>
 #include <memory>
 #include <optional>
@@ -323,6 +326,36 @@ namespace
         }
     }
 
+    const Shape *child_shape(const Shape &s, std::int64_t p)
+    {
+        switch (s.kind)
+        {
+            case K_TSD: return &s.kids[0];
+            case K_TSL: return (p >= 0 && p < s.a) ? &s.kids[0] : nullptr;
+            case K_TSB: return (p >= 0 && p < (std::int64_t)s.kids.size()) ? &s.kids[(std::size_t)p] : nullptr;
+            default: return nullptr;
+        }
+    }
+
+    bool op_ok(const Shape &root, const Op &op)
+    {
+        const Shape *s = &root;
+        for (auto p : op.path)
+        {
+            s = child_shape(*s, p);
+            if (s == nullptr) { return false; }
+        }
+        switch (s->kind)
+        {
+            case K_TS: return op.op == 1;
+            case K_SIGNAL: return op.op == 2;
+            case K_TSS: return op.op >= 3 && op.op <= 6;
+            case K_TSD: return op.op >= 5 && op.op <= 8;
+            case K_TSW: return op.op == 9;
+            default: return false;
+        }
+    }
+
     struct Ctx
     {
         Shape            shape;
@@ -336,18 +369,19 @@ namespace
         std::int64_t              tag{0};   // added to observation codes (0 first run, 100 replay run)
     };
 
-    NodeBuilder make_source(Ctx *ctx, std::size_t index)
+    NodeBuilder make_source(Ctx *ctx)
     {
         NodeTypeMetaData schema;
         schema.display_name  = "hgv_delta_source";
         schema.output_schema = ctx->shape.meta;
         schema.node_kind     = NodeKind::PullSource;
         NodeCallbacks cb;
-        cb.start = [ctx, index](const NodeView &v, DateTime) {
+        cb.start = [ctx](const NodeView &v, DateTime) {
             ctx->next = 0;
-            if (!ctx->ops.empty()) { v.graph_value()->schedule_node(index, dt(ctx->ops[0].t)); }
+            if (!ctx->ops.empty()) { v.graph_value()->schedule_node(v.node_index(), dt(ctx->ops[0].t)); }
         };
-        cb.evaluate = [ctx, index](const NodeView &v, DateTime now) {
+        cb.evaluate = [ctx](const NodeView &v, DateTime now) {
+            const std::size_t index = v.node_index();
             while (ctx->next < ctx->ops.size() && ctx->ops[ctx->next].t <= us(now))
             {
                 const Op &op = ctx->ops[ctx->next++];
@@ -434,17 +468,33 @@ namespace
         return NodeBuilder::native(std::move(schema), std::move(cb), std::move(endpoint));
     }
 
+    void print_buffer(hgv::Out &out, std::int64_t code, const ValueView &buf, const Shape &shape)
+    {
+        const auto list = buf.as_list();
+        for (std::size_t i = 0; i < list.size(); ++i)
+        {
+            Line l{code, (std::int64_t)i};
+            auto d = testing::dense_entry_delta(list, i);
+            if (d.has_value()) { enc_delta(l, d->view(), shape); } else { l.push_back(0); }
+            out.line(l);
+        }
+    }
+
     void run_case(const hgv::Case &c, hgv::Out &out)
     {
         Ctx ctx;
         ctx.out = &out;
-        std::int64_t mode = 0, start = 1, end = 10;
+        std::int64_t mode = 0, start = 1, end = 10, rstart = 1, rend = 10;
         bool         have_shape = false;
         try
         {
             for (const Line &l : c)
             {
-                if (l[0] == 1 && l.size() >= 4) { mode = l[1]; start = l[2]; end = l[3]; }
+                if (l[0] == 1 && l.size() >= 4)
+                {
+                    mode = l[1]; start = l[2]; end = l[3]; rstart = 1; rend = end;
+                    if (l.size() >= 6) { rstart = l[4]; rend = l[5]; }
+                }
                 else if (l[0] == 2)
                 {
                     std::size_t i = 1;
@@ -466,14 +516,28 @@ namespace
                 }
                 else { throw BadCase("line"); }
             }
-            if (!have_shape || start < 1 || end < start || end > start + 1000) { throw BadCase("header"); }
-            for (const auto &op : ctx.ops) { if (op.t < start || op.t > end) { throw BadCase("time"); } }
+            if (!have_shape || start < 1 || end <= start || end > start + 1000) { throw BadCase("header"); }
+            if (mode != 0 && !(mode == 1 && rstart >= 1 && rend > rstart && rend <= rstart + 1000)) { throw BadCase("mode"); }
+            {
+                std::vector<std::pair<std::int64_t, std::vector<std::int64_t>>> pushes;
+                for (const auto &op : ctx.ops)
+                {
+                    if (op.t < start || op.t >= end) { throw BadCase("time"); }
+                    if (!op_ok(ctx.shape, op)) { throw BadCase("op"); }
+                    if (op.op == 9)
+                    {
+                        const auto key = std::make_pair(op.t, op.path);
+                        if (std::find(pushes.begin(), pushes.end(), key) != pushes.end()) { throw BadCase("push"); }
+                        pushes.push_back(key);
+                    }
+                }
+            }
             std::stable_sort(ctx.ops.begin(), ctx.ops.end(), [](const Op &a, const Op &b) { return a.t < b.t; });
 
             if (mode == 0)
             {
                 GraphBuilder gb;
-                gb.add_node(make_source(&ctx, 0));
+                gb.add_node(make_source(&ctx));
                 gb.add_node(make_probe(&ctx, true));
                 gb.add_edge(GraphEdge{.source_node = 0, .source_path = {}, .target_node = 1, .target_path = {0}});
                 GraphExecutorBuilder eb;
@@ -482,7 +546,61 @@ namespace
                 executor.view().run();
                 out.line({28, 0});
             }
-            else { throw BadCase("mode"); }
+            else
+            {
+                stdlib::register_standard_operators();
+                struct SrcTag {};
+                struct ProbeTag {};
+                Value recorded;
+                {
+                    Wiring        w{WiringKind::TopLevel, WiringOptions{}};
+                    WiringPortRef src = w.add_unique_node(std::type_index(typeid(SrcTag)), make_source(&ctx),
+                                                          std::span<const WiringPortRef>{}, Value{});
+                    std::array<WiringPortRef, 1> ins{src};
+                    static_cast<void>(w.add_unique_node(std::type_index(typeid(ProbeTag)), make_probe(&ctx, false),
+                                                        std::span<const WiringPortRef>{ins.data(), ins.size()}, Value{}));
+                    Port<void> sp{w, src};
+                    wire<stdlib::dense_record_impl>(w, sp, Str{"rec"});
+                    GraphBuilder         gb = std::move(w).finish();
+                    GraphExecutorBuilder eb;
+                    eb.graph_builder(std::move(gb)).start_time(dt(start)).end_time(dt(end));
+                    GraphExecutorValue executor = eb.make_executor();
+                    auto               ev       = executor.view();
+                    ev.run();
+                    const ValueView buf = ev.graph().global_state().get("rec");
+                    if (buf.valid())
+                    {
+                        recorded = Value{buf};
+                        print_buffer(out, 30, buf, ctx.shape);
+                    }
+                }
+                {
+                    ctx.tag = 100;
+                    Wiring                   w{WiringKind::TopLevel, WiringOptions{}};
+                    WiringArg                key;
+                    key.kind         = WiringArg::Kind::Scalar;
+                    key.scalar_value = Value{Str{"rec"}};
+                    key.scalar_meta  = key.scalar_value.schema();
+                    std::array<WiringArg, 1> args{std::move(key)};
+                    auto                     res = wire_operator(w, "replay", std::span<const WiringArg>{args}, true, ctx.shape.meta);
+                    if (!res.has_output) { throw std::logic_error("replay has no output"); }
+                    WiringPortRef                rp = res.output.erased();
+                    std::array<WiringPortRef, 1> ins{rp};
+                    static_cast<void>(w.add_unique_node(std::type_index(typeid(ProbeTag)), make_probe(&ctx, false),
+                                                        std::span<const WiringPortRef>{ins.data(), ins.size()}, Value{}));
+                    wire<stdlib::dense_record_impl>(w, res.output, Str{"rec2"});
+                    GraphBuilder gb = std::move(w).finish();
+                    if (recorded.has_value()) { gb.global_state().set("rec", recorded); }
+                    GraphExecutorBuilder eb;
+                    eb.graph_builder(std::move(gb)).start_time(dt(rstart)).end_time(dt(rend));
+                    GraphExecutorValue executor = eb.make_executor();
+                    auto               ev       = executor.view();
+                    ev.run();
+                    const ValueView buf = ev.graph().global_state().get("rec2");
+                    if (buf.valid()) { print_buffer(out, 130, buf, ctx.shape); }
+                }
+                out.line({28, 0});
+            }
         }
         catch (const BadCase &)
         {
